@@ -87,6 +87,14 @@ static int exec_case(const std::vector<uint8_t> &v, std::string *json) {
   // a write / free error was reported and nothing of this property fails: the heap can no
   // longer be trusted, ask the driver for a fresh process (DESIGN 2.4)
   if (c.tainted && r == 0 && !cfg.replay) _exit(77);
+  // ... and when something of this property does fail on a tainted heap, in-process shrinking would run on
+  // corrupted memory (and a follow-up fatal sanitizer error would lose the case): report it unshrunk now
+  if (c.tainted && r > 0 && !cfg.replay && !cfg.logdir.empty()) {
+    write_file(cfg.logdir + "/w" + std::to_string(cfg.worker) + ".fail.case", file.data(), file.size());
+    std::string js = result_json(c);
+    write_file(cfg.logdir + "/w" + std::to_string(cfg.worker) + ".fail.json", js.data(), js.size());
+    _exit(1);
+  }
   return r;
 }
 
